@@ -141,9 +141,9 @@ func c16Registries() string {
 }
 
 type c16Sys struct {
-	menu  []*config.PikeConfig
-	fresh []string // expected probe result per configuration (fresh start)
-	e     *env.Env
+	menu   []*config.PikeConfig
+	fresh  []string // expected probe result per configuration (fresh start)
+	e      *env.Env
 	cur    int
 	round  int
 	c      *Ctx
